@@ -152,15 +152,31 @@ func init() {
 		raw := e.symBytes("cert."+name+".raw", e.tb.I64(int64(n)), uint64(n))
 		p.inputs = p.inputs[:len(p.inputs)-1] // natively a real certificate
 		e.setField(cp, T, "Raw", raw)
-		ib := e.symBytes("cert."+name+".issuer", e.tb.I64(1), 1)
-		p.inputs = p.inputs[:len(p.inputs)-1]
-		iss := e.termsSlice([]*Term{e.tb.Const(8, 0x30), e.tb.Const(8, 1), e.sliceAt(ib, e.tb.I64(0))}, "issuer")
+		// issuer: the name of the one test CA, "CN=<7 letters>", letters symbolic and shared by all
+		// certificates of the path; the native vsym.Cert creates its CA with the same name (input
+		// "ca.cn"), so the issuer bytes are the same in the model and in native replays
+		if p.caCN.Obj == nil {
+			p.caCN = e.symBytes("ca.cn", e.tb.I64(7), 7)
+			for i := int64(0); i < 7; i++ {
+				c := e.sliceAt(p.caCN, e.tb.I64(i))
+				up := e.tb.And(e.tb.Ule(e.tb.Const(8, 'A'), c), e.tb.Ule(c, e.tb.Const(8, 'Z')))
+				lo := e.tb.And(e.tb.Ule(e.tb.Const(8, 'a'), c), e.tb.Ule(c, e.tb.Const(8, 'z')))
+				e.Assume(e.tb.Or(up, lo))
+			}
+		}
+		var it []*Term
+		for _, b := range []byte{0x30, 0x12, 0x31, 0x10, 0x30, 0x0e, 0x06, 0x03, 0x55, 0x04, 0x03, 0x13, 0x07} {
+			it = append(it, e.tb.Const(8, uint64(b)))
+		}
+		for i := int64(0); i < 7; i++ {
+			it = append(it, e.sliceAt(p.caCN, e.tb.I64(i)))
+		}
+		iss := e.termsSlice(it, "issuer")
 		e.setField(cp, T, "RawIssuer", iss)
 		// the subject is a different name (certificates are issued by a CA; natively too)
 		sb := e.symBytes("cert."+name+".subject", e.tb.I64(1), 1)
 		p.inputs = p.inputs[:len(p.inputs)-1]
 		e.setField(cp, T, "RawSubject", e.termsSlice([]*Term{e.tb.Const(8, 0x30), e.tb.Const(8, 1), e.sliceAt(sb, e.tb.I64(0))}, "subject"))
-		e.Assume(e.tb.BNot(e.tb.Eq(e.sliceAt(sb, e.tb.I64(0)), e.sliceAt(ib, e.tb.I64(0)))))
 		ser := a[1].(SliceVal)
 		if !ser.Len.IsConst() {
 			e.unsupported("Cert: serial length must be concrete")
